@@ -29,28 +29,16 @@ type Ctx struct {
 	constComps  map[string]bool // components that never change (constglobal)
 	lazy        []lazyAxiom
 	nbase       int
-	freshAllocs []freshAlloc        // objects allocated by the invocation, with the body position of the allocation
 	ptrComps    map[string]string   // heap components holding references: name -> "field" | "map:<keysort>"
 	prog     *Program
 }
 
 type lazyAxiom struct{ trigger, text string }
 
-type freshAlloc struct {
-	name string
-	mark int
-}
-
-// freshnessAxioms: the heap at entry holds no reference to an object that is
-// allocated later by this invocation.
-func (c *Ctx) freshnessAxioms(mark int, text string) []string {
-	var allocs []string
-	for _, a := range c.freshAllocs {
-		if a.mark <= mark {
-			allocs = append(allocs, a.name)
-		}
-	}
-	if len(allocs) == 0 {
+// entryClosureAxioms: every reference stored in the heap at entry exists at
+// entry (is <= $top@in).
+func (c *Ctx) entryClosureAxioms(text string) []string {
+	if _, ok := c.compSort["$top"]; !ok {
 		return nil
 	}
 	var names []string
@@ -58,6 +46,7 @@ func (c *Ctx) freshnessAxioms(mark int, text string) []string {
 		names = append(names, n)
 	}
 	sort.Strings(names)
+	top := c.entryName("$top")
 	var out []string
 	for _, n := range names {
 		en := c.entryName(n)
@@ -65,18 +54,11 @@ func (c *Ctx) freshnessAxioms(mark int, text string) []string {
 			continue
 		}
 		kind := c.ptrComps[n]
-		var cs []string
 		if kind == "field" {
-			for _, a := range allocs {
-				cs = append(cs, fmt.Sprintf("(not (= (select %s x) %s))", en, a))
-			}
-			out = append(out, fmt.Sprintf("(assert (forall ((x Int)) (! %s :pattern ((select %s x)))))", and(cs...), en))
+			out = append(out, fmt.Sprintf("(assert (forall ((x Int)) (! (<= (select %s x) %s) :pattern ((select %s x)))))", en, top, en))
 		} else {
 			ks := strings.TrimPrefix(kind, "map:")
-			for _, a := range allocs {
-				cs = append(cs, fmt.Sprintf("(not (= (select (select %s m) k) %s))", en, a))
-			}
-			out = append(out, fmt.Sprintf("(assert (forall ((m Int) (k %s)) (! %s :pattern ((select (select %s m) k)))))", ks, and(cs...), en))
+			out = append(out, fmt.Sprintf("(assert (forall ((m Int) (k %s)) (! (<= (select (select %s m) k) %s) :pattern ((select (select %s m) k)))))", ks, en, top, en))
 		}
 	}
 	return out
